@@ -231,3 +231,189 @@ Proof.
   intros Hk HW H1 H2 H3 Hs.
   eapply page_fits_plain_lemma; [exact Hk|exact HW|apply application_page_one_line; eassumption|exact Hs].
 Qed.
+
+(* ================= the ANSI formatter: the VISIBLE text (SGR sequences removed) ================= *)
+(* On texts without ESC and without backslash the decorated and the undecorated colorize run in lockstep
+   (MarkupLemmas.colorize_lockstep); here with the outputs related by strips, which composes. *)
+Lemma colorize_lockstep_strips sty sk m : Forall good m ->
+  match colorize sty true sk m, colorize sty false sk m with
+  | Ok (s1, o1), Ok (s2, o2) => s1 = s2 /\ strips o1 o2
+  | Err e1, Err e2 => e1 = e2
+  | _, _ => False
+  end.
+Proof.
+  intros Hm. unfold colorize. destruct (lex_P good m Hm) as [Hsegs Htail].
+  destruct (lex m) as [segs tail] eqn:EL. cbn [fst snd] in *.
+  destruct segs as [|sg segs'] eqn:ES.
+  - rewrite (unescape_id m (good_no_bsl m Hm)). split; [reflexivity|]. apply strips_text, good_no_esc, Hm.
+  - rewrite <- ES in *. rewrite (no_bsl_ends m (good_no_bsl m Hm)).
+    pose proof (run_segs_lockstep sty segs sk [] [] true false Hsegs strips_nil (Forall_nil _) (Forall_nil _)) as HL.
+    destruct (run_segs sty true false true segs sk [] false) as [[[s1 r1] l1]|e1] eqn:R1,
+             (run_segs sty false false true segs sk [] false) as [[[s2 r2] l2]|e2] eqn:R2; try contradiction; cbn [bind]; [|exact HL].
+    destruct HL as (-> & -> & HS & B1 & B2 & El). rewrite El, ES.
+    set (t1 := removelast tail). set (t2 := match rev tail with c :: _ => [c] | [] => [] end).
+    assert (Forall good t1) as G1 by (apply removelast_P, Htail).
+    assert (Forall good t2) as G2 by (apply lastchar_P, Htail).
+    rewrite !unescape_id.
+    + split; [reflexivity|]. apply strips_app; [exact HS|]. apply strips_app; apply strips_apply_cur, good_no_esc; assumption.
+    + apply Forall_app; split; [exact B2|]. apply Forall_app; split; apply apply_cur_no_bsl, good_no_bsl; assumption.
+    + apply Forall_app; split; [exact B1|]. apply Forall_app; split; apply apply_cur_no_bsl, good_no_bsl; assumption.
+Qed.
+
+(* the plain formatter with the same style table and stack *)
+Definition as_plain (f : formatter) : formatter := {| f_kind := FPlain; f_styles := f_styles f; f_stack := f_stack f |}.
+
+Lemma remove_format_as_plain f m f1 o : is_ansi f -> remove_format f m = Ok (f1, o) ->
+  remove_format (as_plain f) m = Ok (as_plain f1, o) /\ is_ansi f1.
+Proof.
+  unfold is_ansi, remove_format, as_plain. cbn [f_kind f_styles f_stack]. destruct (f_kind f) eqn:Ek; try contradiction. intros _ H.
+  destruct (colorize (f_styles f) false (f_stack f) m) as [[sk out]|k]; [|discriminate]. cbn [bind fst snd] in *.
+  injection H as <- <-. cbn [f_kind f_styles f_stack]. split; [reflexivity|exact I].
+Qed.
+Lemma emit_lockstep f raw f1 o1 : is_ansi f -> Forall good raw -> emit f raw = Ok (f1, o1) ->
+  exists o2, emit (as_plain f) raw = Ok (as_plain f1, o2) /\ is_ansi f1 /\ strips o1 o2.
+Proof.
+  unfold is_ansi, emit, format, remove_format, as_plain. cbn [f_kind f_styles f_stack].
+  destruct (f_kind f) eqn:Ek; try contradiction. intros _ Hg H.
+  pose proof (colorize_lockstep_strips (f_styles f) (f_stack f) raw Hg) as HL.
+  destruct (colorize (f_styles f) true (f_stack f) raw) as [[s1 r1]|e1]; [|discriminate].
+  destruct (colorize (f_styles f) false (f_stack f) raw) as [[s2 r2]|e2]; [|contradiction]. destruct HL as [-> HS].
+  cbn [bind fst snd] in *. injection H as <- <-. cbn [f_kind f_styles f_stack].
+  exists r2. split; [reflexivity|]. split; [exact I|exact HS].
+Qed.
+Lemma align_as_plain : forall l f acc f1 off, is_ansi f -> align f l acc = Ok (f1, off) ->
+  align (as_plain f) l acc = Ok (as_plain f1, off) /\ is_ansi f1.
+Proof.
+  induction l as [|[ind e] r IH]; intros f acc f1 off Hk H; cbn [align] in *; [injection H as <- <-; auto|].
+  destruct e as [t|label text padding aligned|]; [apply IH; assumption| |apply IH; assumption].
+  destruct aligned; [|apply IH; assumption].
+  destruct (remove_format f label) as [[f2 o]|k] eqn:E1; [|discriminate]. cbn [bind fst snd] in H.
+  destruct (remove_format_as_plain _ _ _ _ Hk E1) as [-> Hk2]. cbn [bind fst snd]. apply IH; assumption.
+Qed.
+
+(* the text handed to the formatter is made of the characters of the label, of the text, blanks and line breaks *)
+Lemma good_spaces n : Forall good (spaces n).
+Proof. apply Forall_forall. intros c Hc. apply repeat_spec in Hc. subst. split; discriminate. Qed.
+Lemma good_rstrip s : Forall good s -> Forall good (rstrip s).
+Proof. intros H. destruct (rstrip_prefix s) as [t Ht]. rewrite Ht in H. apply Forall_app in H. tauto. Qed.
+Lemma good_join prefix : Forall good prefix -> forall lines, Forall (Forall good) lines -> Forall good (join_lines prefix lines).
+Proof.
+  intros Hp. induction lines as [|l r IH]; intros H; [constructor|]. inversion H as [|? ? H1 H2]; subst.
+  destruct r as [|l2 r]; [exact H1|].
+  change (join_lines prefix (l :: l2 :: r)) with (l ++ 10%N :: prefix ++ join_lines prefix (l2 :: r)).
+  apply Forall_app. split; [exact H1|]. constructor; [split; discriminate|]. apply Forall_app. split; [exact Hp|apply IH, H2].
+Qed.
+Lemma good_wrap text w ls : Forall good text -> wrap text w = Ok ls -> Forall (Forall good) ls.
+Proof.
+  intros Ht H. eapply wrap_lines_chars_lemma; [exact H|]. unfold munge. apply Forall_forall. intros c Hc.
+  apply in_map_iff in Hc. destruct Hc as (x & <- & Hx). destruct (tw_space x); [split; discriminate|].
+  rewrite Forall_forall in Ht. auto.
+Qed.
+Lemma elem_raw_good W off ind vis e raw : Forall good (elem_label e) -> Forall good (elem_text e) ->
+  elem_raw W off ind vis e = Ok raw -> Forall good raw.
+Proof.
+  intros Hl Ht H. assert (Hnl : Forall good [10%N]) by (constructor; [split; discriminate|constructor]).
+  destruct e as [t|label text padding aligned|]; cbn [elem_raw elem_label elem_text] in *.
+  - destruct (wrap t _) as [lines|k] eqn:Ew; [|discriminate]. cbn [bind] in H. injection H as <-.
+    apply Forall_app. split; [apply good_spaces|]. apply Forall_app. split; [|exact Hnl].
+    apply good_rstrip, good_join; [apply good_spaces|exact (good_wrap _ _ _ Ht Ew)].
+  - cbv zeta in H. destruct (wrap text _) as [lines|k] eqn:Ew; [|discriminate]. cbn [bind] in H. injection H as <-.
+    apply Forall_app. split; [|exact Hnl]. apply good_rstrip. apply Forall_app. split; [apply good_spaces|].
+    apply Forall_app. split; [unfold ljust; apply Forall_app; split; [exact Hl|apply good_spaces]|].
+    apply good_rstrip, good_join; [apply Forall_app; split; apply good_spaces|exact (good_wrap _ _ _ Ht Ew)].
+  - injection H as <-. exact Hnl.
+Qed.
+
+Definition good_elem (x : nat * elem) : Prop := Forall good (elem_label (snd x)) /\ Forall good (elem_text (snd x)).
+(* no ESC and no backslash in any label or text of the layout *)
+Definition good_layout (l : layout) : Prop := Forall good_elem l.
+
+Lemma render_elem_lockstep W off f ind e f1 o1 : is_ansi f -> good_elem (ind, e) -> render_elem W off f ind e = Ok (f1, o1) ->
+  exists o2, render_elem W off (as_plain f) ind e = Ok (as_plain f1, o2) /\ is_ansi f1 /\ strips o1 o2.
+Proof.
+  intros Hk [Hl Ht] H. cbn [snd] in Hl, Ht. destruct e as [t|label text padding aligned|]; unfold render_elem in *.
+  - destruct (elem_raw W off ind 0 (EPara t)) as [raw|k] eqn:Er; [|discriminate]. cbn [bind] in *.
+    apply emit_lockstep; [exact Hk|eapply elem_raw_good; eassumption|exact H].
+  - destruct (remove_format f label) as [[f2 o]|k] eqn:E1; [|discriminate]. cbn [bind fst snd] in H.
+    destruct (remove_format_as_plain _ _ _ _ Hk E1) as [-> Hk2]. cbn [bind fst snd].
+    destruct (elem_raw W off ind (zlen o) (ELab label text padding aligned)) as [raw|k] eqn:Er; [|discriminate]. cbn [bind] in *.
+    apply emit_lockstep; [exact Hk2|eapply elem_raw_good; eassumption|exact H].
+  - cbn [elem_raw bind] in *. apply emit_lockstep; [exact Hk| |exact H]. constructor; [split; discriminate|constructor].
+Qed.
+Lemma render_all_lockstep W off : forall l f out1 out2 f1 s1, is_ansi f -> good_layout l -> strips out1 out2 ->
+  render_all W off f l out1 = Ok (f1, s1) ->
+  exists s2, render_all W off (as_plain f) l out2 = Ok (as_plain f1, s2) /\ strips s1 s2.
+Proof.
+  induction l as [|[ind e] r IH]; intros f out1 out2 f1 s1 Hk Hl Ho H; cbn [render_all] in *.
+  - injection H as <- <-. exists out2. auto.
+  - inversion Hl as [|? ? Hl1 Hl2]; subst.
+    destruct (render_elem W off f ind e) as [[f2 o1]|k] eqn:Ee; [|discriminate]. cbn [bind fst snd] in H.
+    destruct (render_elem_lockstep _ _ _ _ _ _ _ Hk Hl1 Ee) as (o2 & -> & Hk2 & Hs). cbn [bind fst snd].
+    eapply IH; [exact Hk2|exact Hl2| |exact H]. apply strips_app; assumption.
+Qed.
+(* the page through the ANSI formatter, SGR sequences removed, is the page through the plain formatter *)
+Theorem ansi_page_visible_lemma W f l s : is_ansi f -> good_layout l -> render_page W f l = Ok s ->
+  render_page W (as_plain f) l = Ok (strip_sgr s).
+Proof.
+  intros Hk Hl H. unfold render_page in *. destruct (align f l 0) as [[f1 off]|k] eqn:Ea; [|discriminate]. cbn [bind fst snd] in H.
+  destruct (align_as_plain _ _ _ _ _ Hk Ea) as [-> Hk1]. cbn [bind fst snd].
+  destruct (render_all W off f1 l []) as [[f2 s1]|k] eqn:Er; [|discriminate]. cbn [bind fst snd] in H. injection H as <-.
+  destruct (render_all_lockstep _ _ _ _ _ _ _ _ Hk1 Hl strips_nil Er) as (s2 & -> & Hs). cbn [bind snd].
+  now rewrite (strips_sgr_strip _ _ Hs).
+Qed.
+
+(* removing SGR sequences acts line by line: a line break ends every sequence begun *)
+Lemma strip_step_nl out g : strip_step (out, g) 10%N = (out ++ pending_of g ++ [10%N], GNone).
+Proof. destruct g; reflexivity. Qed.
+Lemma strip_sgr_nl a b : strip_sgr (a ++ 10%N :: b) = strip_sgr a ++ 10%N :: strip_sgr b.
+Proof.
+  unfold strip_sgr, strip_end. rewrite fold_left_app. cbn [fold_left].
+  destruct (fold_left strip_step a ([], GNone)) as [oa ga]. rewrite strip_step_nl, strip_fold_out. cbn [fst snd].
+  now rewrite <- !app_assoc.
+Qed.
+Lemma strip_step_P (P : N -> Prop) out g c : P c -> Forall P out -> Forall P (pending_of g) ->
+  Forall P (fst (strip_step (out, g) c)) /\ Forall P (pending_of (snd (strip_step (out, g) c))).
+Proof.
+  intros Hc Ho Hg. assert (Hc1 : Forall P [c]) by (constructor; [exact Hc|constructor]).
+  assert (Hflush : Forall P (fst (if N.eqb c ESC then (out ++ pending_of g, GEsc) else (out ++ pending_of g ++ [c], GNone)))
+                   /\ Forall P (pending_of (snd (if N.eqb c ESC then (out ++ pending_of g, GEsc) else (out ++ pending_of g ++ [c], GNone))))).
+  { destruct (N.eqb_spec c ESC) as [->|]; cbn [fst snd pending_of]; split; auto; repeat (apply Forall_app; split); auto. }
+  unfold strip_step. destruct g as [| |p]; [exact Hflush| |].
+  - destruct (N.eqb_spec c 91) as [->|]; [|exact Hflush]. cbn [fst snd pending_of] in *. split; [exact Ho|].
+    inversion Hg; subst. constructor; [assumption|exact Hc1].
+  - destruct (is_digit c || N.eqb c SEMI).
+    + cbn [fst snd pending_of] in *. split; [exact Ho|]. inversion Hg as [|? ? H1 H2]; subst. inversion H2; subst.
+      constructor; [assumption|]. constructor; [assumption|]. apply Forall_app. split; assumption.
+    + destruct (N.eqb c 109); [cbn [fst snd pending_of]; split; [exact Ho|constructor]|exact Hflush].
+Qed.
+Lemma strip_sgr_P (P : N -> Prop) s : Forall P s -> Forall P (strip_sgr s).
+Proof.
+  intros Hs. unfold strip_sgr, strip_end.
+  assert (H : forall acc, Forall P (fst acc) -> Forall P (pending_of (snd acc)) ->
+            Forall P (fst (fold_left strip_step s acc)) /\ Forall P (pending_of (snd (fold_left strip_step s acc)))).
+  { induction Hs as [|c s Hc Hs IH]; intros [out g] H1 H2; cbn [fold_left]; [auto|].
+    destruct (strip_step_P P out g c Hc H1 H2) as [H3 H4]. apply IH; assumption. }
+  destruct (H ([], GNone)) as [H1 H2]; [constructor|constructor|]. apply Forall_app. auto.
+Qed.
+Lemma strip_sgr_join : forall ls, strip_sgr (join_with NL ls) = join_with NL (map strip_sgr ls).
+Proof.
+  induction ls as [|l ls IH]; [reflexivity|]. destruct ls as [|l2 ls]; [reflexivity|].
+  change (join_with NL (l :: l2 :: ls)) with (l ++ 10%N :: join_with NL (l2 :: ls)). rewrite strip_sgr_nl, IH. reflexivity.
+Qed.
+Theorem strip_sgr_lines s : split_on 10%N (strip_sgr s) = map strip_sgr (split_on 10%N s).
+Proof.
+  change 10%N with NL. rewrite <- (join_split s) at 1. rewrite strip_sgr_join. apply split_join.
+  - destruct (split_on NL s) eqn:E; [destruct (split_on_nonempty _ _ E)|discriminate].
+  - apply Forall_forall. intros x Hx. apply in_map_iff in Hx. destruct Hx as (l & <- & Hl).
+    apply strip_sgr_P. pose proof (split_lines_no_nl s) as H. rewrite Forall_forall in H. apply H, Hl.
+Qed.
+
+(* Whenever a page whose labels and texts hold neither ESC nor a backslash renders through the ANSI formatter, the
+   visible text of every line (SGR sequences removed) is at most W - 1 long. *)
+Theorem page_fits_ansi_visible_lemma W f l s : is_ansi f -> 1 <= W -> one_line_labels l -> good_layout l ->
+  render_page W f l = Ok s -> Forall (fun ln => zlen (strip_sgr ln) <= W - 1) (split_on 10%N s).
+Proof.
+  intros Hk HW Hl Hg H. apply ansi_page_visible_lemma in H; [|exact Hk|exact Hg].
+  apply page_fits_plain_lemma in H; [|reflexivity|exact HW|exact Hl]. rewrite strip_sgr_lines in H.
+  apply Forall_forall. intros ln Hln. rewrite Forall_forall in H. apply H, in_map, Hln.
+Qed.
